@@ -412,6 +412,12 @@ impl Drop for AllocPtr {
             }
             let size = self.size();
             ((*self.type_info).drop)(self.value());
+            #[cfg(gluon_verif)]
+            if crate::verif::on_free(self.ptr as usize, size) {
+                // Quarantine: the drop glue has run, poison the payload and never reuse the block
+                ptr::write_bytes(self.value() as *mut u8, 0xD5, self.value_size);
+                return;
+            }
             ptr::read(&*self.ptr);
             deallocate(self.ptr as *mut u8, size);
         }
@@ -1405,19 +1411,6 @@ impl Gc {
             self.allocated_memory -= ptr.size();
         }
         debug!("FREE: {:?}", header);
-        #[cfg(gluon_verif)]
-        let header = match header {
-            Some(mut ptr) if crate::verif::on_free(ptr.ptr as usize, ptr.size()) => {
-                // Quarantine: run the drop glue, poison the payload and never reuse the block
-                unsafe {
-                    ((*ptr.type_info).drop)(ptr.value());
-                    ptr::write_bytes(ptr.value() as *mut u8, 0xD5, ptr.value_size);
-                }
-                mem::forget(ptr);
-                None
-            }
-            header => header,
-        };
         drop(header);
     }
 }
